@@ -1406,9 +1406,36 @@ impl HashColumn {
 					table.validate_plan(record.index, log)?;
 				} else {
 					if record.table.index_bits() < tables.index.id.index_bits() {
-						// Insertion into a previously dropped index.
-						log::warn!( target: "parity-db", "Index {} is too old. Current is {}", record.table, tables.index.id);
-						return Err(Error::Corruption("Unexpected log index id".to_string()))
+						// The record names an older index that is not on disk: either it was
+						// dropped after its reindex had completed, or it was never created because
+						// of a crash before the first record naming it was fully enacted (index
+						// files are created lazily on enactment). Put it back at its place in the
+						// reindex queue: in the first case the logged drop or a new reindex pass
+						// removes it again, in the second its entries are migrated by the pending
+						// reindex. Rejecting the record would discard the rest of a valid log.
+						log::warn!(
+							target: "parity-db",
+							"Missing older index {}. Current is {}. Re-queueing for reindex",
+							record.table,
+							tables.index.id,
+						);
+						let mut reindex = RwLockUpgradableReadGuard::upgrade(reindex);
+						let bits = record.table.index_bits();
+						let position = reindex
+							.queue
+							.iter()
+							.position(|e| {
+								matches!(e, ReindexEntry::Index(t) if t.id.index_bits() > bits)
+							})
+							.unwrap_or(reindex.queue.len());
+						let table = IndexTable::create_new(self.path.as_path(), record.table);
+						reindex.queue.insert(position, ReindexEntry::Index(table));
+						if position == 0 {
+							reindex.progress.store(0, Ordering::Relaxed);
+						}
+						std::mem::drop(reindex);
+						std::mem::drop(tables);
+						return self.validate_plan(LogAction::InsertIndex(record), log)
 					}
 					// Re-launch previously started reindex
 					// TODO: add explicit log records for reindexing events.
@@ -1437,9 +1464,37 @@ impl HashColumn {
 					table.validate_plan(record.index, log)?;
 				} else {
 					if record.table.index_bits() < tables.get_ref_count().id.index_bits() {
-						// Insertion into a previously dropped ref count.
-						log::warn!( target: "parity-db", "Ref count {} is too old. Current is {}", record.table, tables.get_ref_count().id);
-						return Err(Error::Corruption("Unexpected log ref count id".to_string()))
+						// Older ref count table that is not on disk: see the index case above.
+						log::warn!(
+							target: "parity-db",
+							"Missing older ref count {}. Current is {}. Re-queueing for reindex",
+							record.table,
+							tables.get_ref_count().id,
+						);
+						let mut reindex = RwLockUpgradableReadGuard::upgrade(reindex);
+						let bits = record.table.index_bits();
+						let position = reindex
+							.queue
+							.iter()
+							.position(|e| {
+								matches!(e, ReindexEntry::RefCount(t) if t.id.index_bits() > bits)
+							})
+							.or_else(|| {
+								reindex
+									.queue
+									.iter()
+									.rposition(|e| matches!(e, ReindexEntry::RefCount(_)))
+									.map(|p| p + 1)
+							})
+							.unwrap_or(0);
+						let table = RefCountTable::create_new(self.path.as_path(), record.table);
+						reindex.queue.insert(position, ReindexEntry::RefCount(table));
+						if position == 0 {
+							reindex.progress.store(0, Ordering::Relaxed);
+						}
+						std::mem::drop(reindex);
+						std::mem::drop(tables);
+						return self.validate_plan(LogAction::InsertRefCount(record), log)
 					}
 					// Re-launch previously started reindex
 					// TODO: add explicit log records for reindexing events.
